@@ -1,6 +1,8 @@
 //! Which stages make up each property's check, and how many cases each tier runs.
 
+use super::amo::*;
 use super::asyncp::*;
+use super::containers::*;
 use super::more::*;
 use super::solve::*;
 use crate::gen::Params;
@@ -97,6 +99,17 @@ pub fn stages(id: &str) -> Vec<Stage> {
         "C14" => vec![
             st(C14 { params: Params::conflict_heavy().with_soft(5, 200), stage: "general", conflict_free: false }, 15_000, 600_000, Release),
             st(C14 { params: Params::default(), stage: "conflict-free", conflict_free: true }, 15_000, 600_000, Release),
+        ],
+        "C15" => vec![
+            st(C15 { stage: "small", max_n: 33, all_pairs_upto: 33, sample_pairs: 0 }, 300, 6_000, Release),
+            st(C15 { stage: "large", max_n: 130, all_pairs_upto: 64, sample_pairs: 600 }, 40, 3_000, Release),
+        ],
+        "C18" => vec![
+            st(C18 { stage: "main", max_ops: 250 }, 4_000, 150_000, Release),
+        ],
+        "C19" => vec![
+            st(C19 { stage: "main", max_ops: 60 }, 40_000, 2_000_000, Release),
+            st(C19 { stage: "debug", max_ops: 60 }, 10_000, 300_000, Debug),
         ],
         _ => vec![],
     }
